@@ -49,6 +49,7 @@ ERR_TABLE = [
     ("ValueError", "length of data does not match length of array element", "rowLenMismatch"),
     ("ValueError", "Dimensions of mask do not match array", "dimMismatch"),
     ("TypeError", "Object is not a slice", "notASlice"),
+    ("ValueError", "tuple of length", "tupleLen"),
 ]
 
 
@@ -385,6 +386,17 @@ class RealExec:
             return self.new(a, ci["first"])
         if op == "allocfill":
             return self.new(self.cls(self.enc(int(t[1])), int(t[2])))
+        if op in ("settuple", "setlist"):
+            a = self.ref(t[1]); ci = self.comp
+            if ci is None or type(a) is not self.cls:
+                return "err unsupported:" + op
+            vals = [ci["cenc"](x) for x in p_vals(t[3])]
+            a[int(t[2][2:])] = tuple(vals) if op == "settuple" else list(vals)
+            return "ok"
+        if op in ("copyc", "copyd"):
+            import copy as _copy
+            i = int(t[1]); a = self.ref(t[1])
+            return self.new(_copy.copy(a) if op == "copyc" else _copy.deepcopy(a), self.objs[i][1], i)
         if op == "elemset":
             a = self.ref(t[1]); ci = self.comp
             if ci is None or type(a) is not self.cls:
@@ -424,6 +436,13 @@ class RealExec:
         if op == "copy":
             i = int(t[1]); a = self.ref(t[1])
             return self.new(type(a)(a), self.objs[i][1], i)
+        if op == "convert" and len(t) > 2:
+            a = self.ref(t[1])
+            tcls = getattr(im, t[2])
+            tcd = make_codec(im, t[2])
+            r = self.new(tcls(a), tcd[1])
+            self.encs[len(self.objs) - 1] = tcd[0]
+            return r
         if op == "convert":
             a = self.ref(t[1])
             if self.conv is None or type(a) is not self.cls:
@@ -591,6 +610,11 @@ class RealExec:
             a = self.r2(t[1])
             self.d2.append(type(a)(a))
             return "new %d" % (len(self.d2) - 1)
+        if op in ("copyc", "copyd"):
+            import copy as _copy
+            a = self.r2(t[1])
+            self.d2.append(_copy.copy(a) if op == "copyc" else _copy.deepcopy(a))
+            return "new %d" % (len(self.d2) - 1)
         if op == "len":
             return "int %d" % len(self.r2(t[1]))
         if op == "item":
@@ -622,6 +646,14 @@ class RealExec:
         if op == "set1dmask":
             self.r2(t[1])[self.r2(t[2])] = self.ref(t[3])
             return "ok"
+        if op == "convert":
+            self.d2.append(getattr(im, t[2])(self.r2(t[1])))
+            return "new %d" % (len(self.d2) - 1)
+        if op == "settuple":
+            a = self.r2(t[1])
+            e = self.enc2(a)(int(t[4]))
+            a[(int(t[2]), int(t[3]))] = tuple(e[k] for k in range(4))[:int(t[5])] if int(t[5]) <= 4 else tuple([e[0]] * int(t[5]))
+            return "ok"
         if op == "ifelses":
             a = self.r2(t[1])
             self.d2.append(a.ifelse(self.r2(t[2]), self.enc2(a)(int(t[3]))))
@@ -632,10 +664,14 @@ class RealExec:
         return "bad"
 
     def enc2(self, a):
-        return int if type(a) is self.imath.IntArray2D else self.enc
+        if type(a).__name__ in ("IntArray2D", "FloatArray2D", "DoubleArray2D"):
+            return int
+        return self.enc
 
     def dec2(self, a):
-        return int if type(a) is self.imath.IntArray2D else self.dec
+        if type(a).__name__ in ("IntArray2D", "FloatArray2D", "DoubleArray2D"):
+            return int
+        return self.dec
 
     def runmat(self, t):
         im = self.imath
@@ -666,6 +702,33 @@ class RealExec:
             self.rm(t[1])[p_idx(t[2])] = self.rm(t[3])
             return "ok"
         return "bad"
+
+
+def convert_targets(imath, clsname):
+    """EVERY other array class constructible from `clsname` (all converting constructors), value-preserving on the codec"""
+    src = getattr(imath, clsname)
+    cd = make_codec(imath, clsname)
+    if cd is None:
+        return []
+    probe = src(1)
+    try:
+        probe[0] = cd[0](3)
+    except Exception:
+        return []
+    out = []
+    for n in array_classes(imath):
+        if n == clsname or n in ("StringArray", "WstringArray") or (n.startswith("V") and not n[1].isdigit()):
+            continue
+        tcd = make_codec(imath, n)
+        if tcd is None:
+            continue
+        try:
+            r = getattr(imath, n)(probe)
+            if len(r) == 1 and tcd[1](r[0]) == 3:
+                out.append(n)
+        except Exception:
+            continue
+    return out
 
 
 def convert_target(imath, clsname):
@@ -803,10 +866,29 @@ class SpecExec:
     def run(self, t):
         op = t[0]
         self.alias = False
+        self.quirk_applied = False
         if op in ("alloc", "alloci", "allocc"):
             return self.new(SV(p_vals(t[1])))
         if op == "allocfill":
             return self.new(SV([int(t[1])] * int(t[2])))
+        if op in ("settuple", "setlist"):
+            v = self.ref(t[1]); vals = p_vals(t[3])
+            if not isinstance(v, SW):
+                raise SpecErr("unsupported")
+            if len(vals) != len(v.cols):
+                raise SpecErr("tupleLen")
+            try:
+                p = v.positions()[range(len(v))[int(t[2][2:])]]
+            except IndexError:
+                raise SpecErr("indexError", "IndexError")
+            if not v.writable:
+                raise SpecErr("readOnly")
+            for k, x in enumerate(vals):
+                v.cols[k][p] = x
+            return "ok"
+        if op in ("copyc", "copyd"):
+            t = ["copy", t[1]]
+            op = "copy"
         if op == "elemset":
             v = self.ref(t[1])
             if not isinstance(v, SW):
@@ -862,7 +944,7 @@ class SpecExec:
             if isinstance(v, SW):
                 return self.new(SW(v.cols, None if v.sel is None else list(v.sel), v.ulen, v.writable))
             return self.new(SV(v.base, None if v.sel is None else list(v.sel), v.ulen, v.writable))
-        if op == "convert":
+        if op == "convert":      # (optionally with a named target class)
             return self.new(SV(self.ref(t[1]).tolist()))
         if op == "setscalar":
             v = self.ref(t[1])
@@ -880,6 +962,10 @@ class SpecExec:
             bits = m.tolist(); pos = v.positions()
             if len(m) == len(v):
                 ks = [i for i in range(len(v)) if bits[i] != 0]
+                if self.quirks and "maskonmasked" in self.quirks and v.sel is not None and len(ks) != len(v):
+                    # the recorded quirk, reproduced EXACTLY: on a masked reference the mask is not looked at
+                    ks = list(range(len(v)))
+                    self.quirk_applied = True
             elif v.sel is not None and len(m) == v.ulen:
                 ks = list(range(len(v)))      # extension: mask of the unmasked length on a masked reference
             else:
@@ -989,7 +1075,11 @@ class SpecExec:
         """virtual indices of v selected by mask m (`a[m] = ...`)"""
         bits = m.tolist()
         if len(m) == len(v):
-            return [i for i in range(len(v)) if bits[i] != 0]
+            ks = [i for i in range(len(v)) if bits[i] != 0]
+            if not strict and self.quirks and "maskonmasked" in self.quirks and v.sel is not None and len(ks) != len(v):
+                self.quirk_applied = True       # FixedVArray / SizeHelper `*_scalar_mask` on a masked reference: all rows
+                return list(range(len(v)))
+            return ks
         if not strict and v.sel is not None and len(m) == v.ulen:
             return list(range(len(v)))        # extension: mask of the unmasked length on a masked reference
         raise SpecErr("dimMismatch")
@@ -1138,8 +1228,19 @@ class SpecExec:
             self.d2.append((lx, ly, [[int(t[1])] * lx for _ in range(ly)]))
             return "new %d" % (len(self.d2) - 1)
         lx, ly, L = self.r2(t[1])
-        if op == "copy":
-            self.d2.append((lx, ly, L))          # the copy constructor shares the data
+        if op == "convert":
+            self.d2.append((lx, ly, [list(r) for r in L]))     # a converting constructor copies
+            return "new %d" % (len(self.d2) - 1)
+        if op == "settuple":
+            if t[5] != "4":
+                raise SpecErr("tupleLen")
+            try:
+                L[range(ly)[int(t[3])]][range(lx)[int(t[2])]] = int(t[4])
+            except IndexError:
+                raise SpecErr("indexError", "IndexError")
+            return "ok"
+        if op in ("copy", "copyc", "copyd"):
+            self.d2.append((lx, ly, L))          # the copy constructor (also behind __copy__ / __deepcopy__) shares the data
             return "new %d" % (len(self.d2) - 1)
         if op == "len":
             return "int %d" % (lx * ly)
@@ -1377,6 +1478,8 @@ def serve(ex, inp, out, flush=False):
             r = ex.run(t)
             if getattr(ex, "alias", False):
                 pre = "alias "
+            elif getattr(ex, "quirk_applied", False):
+                pre = "quirk "
         except BadRef:
             r = "err badRef:badRef"
         except SpecErr as e:
@@ -1392,9 +1495,11 @@ def main():
     ap.add_argument("--mode", default="real")
     ap.add_argument("--cls", default="IntArray")
     ap.add_argument("--flush", action="store_true", help="flush after every line (interactive use through pipes)")
+    ap.add_argument("--quirks", default="", help="spec mode: comma list of recorded deviations to REPRODUCE exactly "
+                    "(maskonmasked); lines where one took effect are prefixed `quirk `")
     a = ap.parse_args()
     if a.mode == "spec":
-        serve(SpecExec(), sys.stdin, sys.stdout, a.flush)
+        serve(SpecExec(set(q for q in a.quirks.split(",") if q) or False), sys.stdin, sys.stdout, a.flush)
     elif a.mode == "classes":
         import imath
         res = {}
@@ -1417,8 +1522,28 @@ def main():
                 ci = comp_info(imath, n)
             except Exception:
                 ci = None
+            targets, tup, lst = [], False, False
+            if cd and generic:
+                try:
+                    targets = convert_targets(imath, n)
+                except Exception:
+                    targets = []
+            if ci:
+                for kind in ("tuple", "list"):
+                    try:
+                        a = c(1)
+                        vals = [ci["cenc"](k + 1) for k in range(ci["w"])]
+                        a[0] = tuple(vals) if kind == "tuple" else list(vals)
+                        okk = ci["first"](a[0]) == 1
+                    except Exception:
+                        okk = False
+                    if kind == "tuple":
+                        tup = okk
+                    else:
+                        lst = okk
             res[n] = {"codec": cd is not None, "generic": generic, "iadd": hasattr(c, "__iadd__"),
-                      "convert": ct[0].__name__ if ct else None,
+                      "convert": ct[0].__name__ if ct else None, "convert_targets": targets, "settuple": tup, "setlist": lst,
+                      "copy_protocol": hasattr(c, "__copy__") and hasattr(c, "__deepcopy__"),
                       "comp": None if ci is None else {"w": ci["w"], "names": list(ci["names"]), "ccls": ci["ccls"],
                                                        "elemset": elem_attr_writable(imath, n, ci)}}
         json.dump(res, sys.stdout)
